@@ -955,6 +955,24 @@ func checkSelectorPrefix(w *World, r *Result) {
 		}
 		return true
 	})
+	// the separator may also be appended where the test is made: strings.HasPrefix(path, prefix+"/")
+	iginfo := ig.Pkg.TypesInfo
+	ast.Inspect(ig.Decl.Body, func(x ast.Node) bool {
+		call, ok := x.(*ast.CallExpr)
+		if !ok || len(call.Args) != 2 {
+			return true
+		}
+		if f := fullName(calleeOf(iginfo, call)); f != "strings.HasPrefix" && f != "strings.CutPrefix" {
+			return true
+		}
+		if be, ok := ast.Unparen(call.Args[1]).(*ast.BinaryExpr); ok && be.Op == token.ADD {
+			if tv := iginfo.Types[be.Y]; tv.Value != nil && tv.Value.Kind() == constant.String && strings.HasSuffix(constant.StringVal(tv.Value), "/") {
+				endsWithSep = true
+				at = call
+			}
+		}
+		return true
+	})
 	hasEquality := false
 	ast.Inspect(ig.Decl.Body, func(x ast.Node) bool {
 		// an equality test on the path being examined (a parameter of ignorePath)
@@ -969,7 +987,7 @@ func checkSelectorPrefix(w *World, r *Result) {
 	})
 	r.cond(!endsWithSep || hasEquality, "AGR-C10p", ns.Name, "prefix and prefix test agree", w.Pos(at.Pos()),
 		"the prefix has no trailing separator (or the test also accepts the path equal to it)",
-		"the prefix now ends with `/` while ignorePath still only tests strings.HasPrefix(path, prefix): the package whose path is exactly <domain>/<org> (the module's root package) no longer matches, is skipped by the walk, and the enums and unions it declares are analysed as plain named types")
+		"the prefix is compared with a trailing `/` (appended when it is built, or in the test itself) while the path equal to the prefix is not accepted separately: the package whose path is exactly <domain>/<org> (the module's root package) no longer matches, is skipped by the walk, and the enums and unions it declares are analysed as plain named types")
 }
 
 // runningMaxVars returns the locals of fn that the loop raises to val: assigned val under a guard `M < val` /
